@@ -202,6 +202,19 @@ func VC28_History() {
 			obsRIB[rd].Register(obs[rd])
 		}
 		c28Check(r, m, &obs, &obsRIB)
+		if vParam("reconnect") >= 1 {
+			// the BMP connection is lost (or, reconnect == 2, terminated) and the router connects again
+			if vParam("reconnect") == 2 {
+				r.processMsg(c28Termination())
+			}
+			r.cleanup()
+			for q := range m.up {
+				m.clearPeer(q)
+			}
+			cc = &c28Conn{}
+			r.con = cc
+			c28Check(r, m, &obs, &obsRIB)
+		}
 	}
 	for step := 0; step < k; step++ {
 		ev := vChoice(6)
